@@ -5,7 +5,7 @@ import Fundraising.Proofs.ExecLemmas
   lemmas of `WF` (bank / clock changes, replacing one view, appending a view), and
   what the primitives do to `WF` and `BankNonneg`.
 -/
-namespace Fundraising
+namespace Fundraising.WFInv
 
 theorem bind_ok {ε α β : Type} {x : Except ε α} {f : α → Except ε β} {b : β} :
     (x >>= f) = .ok b ↔ ∃ a, x = .ok a ∧ f a = .ok b := by
@@ -149,4 +149,4 @@ theorem mkCoins_nonneg {c : Ctx} {d : Denom} {amt : Int} {cs : List Coin} (h : m
 theorem BankNonneg.of_bank_eq {s s' : Core} (h : s'.bank = s.bank) (hn : BankNonneg s) : BankNonneg s' := by
   unfold BankNonneg; rw [h]; exact hn
 
-end Fundraising
+end Fundraising.WFInv
